@@ -218,6 +218,18 @@ def renumber_after_mutation(ctx, rule, floor=2):
                            for x in S.walk(src)) and U.expr_calls(src, "Iterator::next"):
                         # enumerate over self.words
                         ren.append(bi)
+                    else:
+                        # index loop: words[i].offset = i for i in 0 .. words.len()
+                        base = S.strip_refs(pl[1])
+                        if base[0] == "call" and base[1].endswith(("IndexMut::index_mut", "Index::index")) and len(base[2]) == 2 and \
+                                S.norm(S.strip_refs(base[2][1])) == S.norm(S.strip_refs(src)):
+                            wp = U.field_path(base[2][0])
+                            rng = [x for x in S.walk(src) if isinstance(x, tuple) and x and x[0] == "agg" and x[2].endswith("Range::Range")]
+                            if wp and wp[2] == ["words"] and rng and S.const_value(S.strip_refs(rng[0][3][0])) == 0:
+                                hi = S.strip_refs(rng[0][3][1])
+                                hp = U.field_path(hi[2][0]) if hi[0] == "call" and hi[1].endswith("::len") and hi[2] else None
+                                if hp and hp[2] == ["words"]:
+                                    ren.append(bi)
         key = "renumber:%s" % name
         ok = False
         for rb in ren:
